@@ -140,6 +140,20 @@ func (sc *siteCollector) expr(slot *hs.Expr, cx *fctx) {
 		sc.expr(&n.I, cx)
 	case *hs.Member:
 		sc.add(reftype.RUnknownMember, "member-renamed", cx, []string{"type:" + kindName(sc.typeOf(n.X))}, func() { n.Name = "zz_nomember" })
+		if sc.typeOf(n.X).K == hs.KObj {
+			// an object indexed by a string literal: only its own fields answer, not the builtin
+			// members every object has
+			for _, bm := range []string{"keys", "to_json", "to_json_indent", "to_string", "zz_nofield"} {
+				bm := bm
+				own := false
+				for _, f := range sc.typeOf(n.X).Fields {
+					own = own || f.Name == bm
+				}
+				if !own {
+					sc.add(reftype.RUnknownMember, "member-became-string-index-"+bm, cx, []string{"type:object"}, func() { *slot = hs.Idx(n.X, hs.S(bm)) })
+				}
+			}
+		}
 		sc.expr(&n.X, cx)
 	case *hs.Cast:
 		xt := sc.typeOf(n.X)
